@@ -35,7 +35,7 @@ NAMES = ['append', 'add', 'insert', 'remove', 'discard', 'pop', 'delitem', 'dels
 
 def decode(data: bytes):
     fdp = atheris.FuzzedDataProvider(data)
-    nv = 8 if KIND == 'predicates' else 6
+    nv = 10 if KIND == 'predicates' else 6
     v = lambda: fdp.ConsumeIntInRange(0, nv - 1)
     idx = lambda: fdp.ConsumeIntInRange(-7, 7)
     opt = lambda: None if fdp.ConsumeBool() else fdp.ConsumeIntInRange(-6, 6)
